@@ -50,6 +50,7 @@ D2 == "Dev_C19_MvIntoSelf"
 D3 == "Dev_C19_UnlinkedDirResurrected"
 D4 == "Dev_C19_MetaRevertedByOpenFd"
 D5 == "Dev_C19_FlushForgetsOpenFile"
+D6 == "Dev_C19_UnflushedWriteVisible"
 
 (* ---- paths and trees ---------------------------------------------------------------- *)
 Parent(p)      == SubSeq(p, 1, Len(p) - 1)
@@ -108,7 +109,7 @@ Gate(op, T0) ==
     LET T == T0 \cap OpenDevs IN
     /\ region = "none" \/ op \in QuietOps
     /\ T = {} \/ (region = "none" /\ Cardinality(T) = 1 /\ T \cap Avoid = {})
-    /\ region' = IF T \cap {D3, D4, D5} # {} THEN CHOOSE x \in T : TRUE
+    /\ region' = IF T \cap {D3, D4, D5, D6} # {} THEN CHOOSE x \in T : TRUE
                  ELSE IF \A i \in Fds : ~fds'[i].open THEN "none" ELSE region
 
 (* ---- directory operations ------------------------------------------------------------ *)
@@ -236,16 +237,24 @@ Open(i, p, sync) ==
        /\ Gate("Open", {})
        /\ Ret("Open", [A0 EXCEPT !.p = p, !.fd = i, !.fl = sync], res, {}, <<>>, <<>>)
 
-Modify(op, i, a, view, pos, bump) ==
+Modify(op, i, a, view, pos, bump, T, alts) ==
     /\ fds[i].open /\ Len(view) <= MaxLen
     /\ UNCHANGED fs
     /\ fds' = [fds EXCEPT ![i].view = view, ![i].pos = pos, ![i].st = "dirty", ![i].bump = @ \/ bump]
-    /\ Gate(op, {})
-    /\ Ret(op, [a EXCEPT !.fd = i], "ok", {}, <<>>, <<>>)
-Write(i, d)        == Modify("Write", i, [A0 EXCEPT !.d = d], Over(fds[i].view, fds[i].pos, d), fds[i].pos + Len(d), TRUE)
+    /\ Gate(op, T)
+    /\ Ret(op, [a EXCEPT !.fd = i], "ok", {}, <<>>, alts)
+Write(i, d)        == Modify("Write", i, [A0 EXCEPT !.d = d], Over(fds[i].view, fds[i].pos, d), fds[i].pos + Len(d), TRUE, {}, <<>>)
 \* WriteAt over still-buffered data is DagModifier's business (property C10): only issued on a clean buffer
-WriteAt(i, d, off) == fds[i].st # "dirty" /\ Modify("WriteAt", i, [A0 EXCEPT !.d = d, !.n = off], Over(fds[i].view, off, d), off + Len(d), TRUE)
-Truncate(i, n)     == Modify("Truncate", i, [A0 EXCEPT !.n = n], Resize(fds[i].view, n), fds[i].pos, n # Len(fds[i].view))
+WriteAt(i, d, off) == fds[i].st # "dirty" /\ Modify("WriteAt", i, [A0 EXCEPT !.d = d, !.n = off], Over(fds[i].view, off, d), off + Len(d), TRUE, {}, <<>>)
+\* Truncate makes the DagModifier write its buffer into the DAG.  D6: bytes of the descriptor's
+\* view that overwrite bytes the tree currently shows become visible there without any flush.
+Truncate(i, n) ==
+    LET fd   == fds[i]
+        old  == fs[fd.p].c
+        leak == [k \in 1..Len(old) |-> IF k <= Len(fd.view) THEN fd.view[k] ELSE old[k]]
+        hit  == fd.open /\ fd.att /\ leak # old
+    IN Modify("Truncate", i, [A0 EXCEPT !.n = n], Resize(fds[i].view, n), fds[i].pos, n # Len(fds[i].view),
+              IF hit THEN {D6} ELSE {}, IF hit THEN <<Alt(D6, [fs EXCEPT ![fd.p].c = leak])>> ELSE <<>>)
 
 \* what a flush of descriptor i makes visible (FdFlush, Close)
 Flushed(i) ==
